@@ -159,7 +159,12 @@ Definition late_claim (b : base) (te : Z * ev) : list rule :=
       (* rule 2080: the heartbeat-failure path gives up the claim only after a refresh attempt of the running term has failed:
          the latest attempt was not answered with success in time, or it is still in flight and the loop's time-out has passed *)
       when (negb (zb fl) && io_flag x && (cause =? sHbFail) &&
-            (io_hb_ok x || ((io_hb_te x <? 0) && (fst te - io_hb_ta x <? gen_hb_update_timeout (ic_H (cfg_of b i)))))) 2080
+            (io_hb_ok x || ((io_hb_te x <? 0) && (fst te - io_hb_ta x <? gen_hb_update_timeout (ic_H (cfg_of b i)))))) 2080 ++
+      (* rule 2082: the watcher gives up the claim ("preempted") only when the record has a readable version that names another
+         instance and is newer than the write the running term rests on *)
+      when (negb (zb fl) && io_flag x && (cause =? sWatchEvt) &&
+            negb (existsb (fun v => (ver_key v =? ic_key (cfg_of b i)) && (io_acq_rev x <? ver_rev v) && negb (ver_tomb v) &&
+                                    sok_of b (ver_val v) && negb (sid_of b (ver_val v) =? i)) (b_hist b))) 2082
   (* rule 2047: the demotion callback of a term is entered after its promotion callback *)
   | EDemote i _ => let x := inst_of b i in when (ic_haspromote (cfg_of b i) && (io_promotes x <? io_ended x)) 2047
   | _ => []
